@@ -86,7 +86,8 @@ class Paths:
             if acc is not None:
                 return (b[0], b[1] + acc)
             n = e.get("n", "?")
-            if n in ("get", "ptr", "getRawPtr"):      # RCP::get()
+            if n in ("get", "ptr", "getRawPtr", "rcp_from_this",
+                     "rcp_from_this_cast"):      # RCP::get(), self handles
                 return b
             return (b[0], b[1] + (n + "()",))
         if k == "ctor" and len(e.get("a", ())) == 1:
